@@ -267,6 +267,32 @@ def alphabet(world, amounts):
             m.set_market_status(MarketStatus(ts, None), c.prices.loc[ts])
         out.append(Op("refresh", refresh, False, "refresh"))
 
+        def ask_cost(c):
+            # asking what an order would cost is a read: the book, cash and positions stay as they are
+            c.last = {"side": "look"}
+            return (m.estimate_cost("C1", Decimal(3), "buy"), m.estimate_cost("C1", Decimal(2), "sell"))
+        out.append(Op("estimate_cost[C1]", ask_cost, True, "look"))
+
+        def limit_outside_cap(side):
+            def call(c):
+                # a limit price naming the SECOND level together with a cap that only admits the first: no level satisfies both
+                d = m.market_status.data
+                lv = (d.loc["C1"].asks if side == "buy" else d.loc["C1"].bids) if "C1" in d.index else []
+                if len(lv) < 2:
+                    raise AssertionError("book has no second level")
+                mark = Decimal(str(d.loc["C1"].mark_price))
+                p1, p2 = Decimal(str(lv[0][0])), Decimal(str(lv[1][0]))
+                mult = ((p1 + p2) / 2 / mark) if side == "buy" else (mark / ((p1 + p2) / 2))
+                if mult <= 1:
+                    raise AssertionError("first level on the mark")
+                if abs(p1 - p2) <= Decimal("0.002") * max(p1, p2):
+                    raise AssertionError("the two levels lie within the market's own price-matching tolerance of each other")
+                c.last = {"side": "must-refuse"}
+                return (m.buy if side == "buy" else m.sell)("C1", Decimal(1), price_in_token=p2, max_mark_price_multiple=mult)
+            return call
+        out.append(Op("buy[C1,1,L1+cap-between]", limit_outside_cap("buy"), True, "must-refuse"))
+        out.append(Op("sell[C1,1,L1+cap-between]", limit_outside_cap("sell"), True, "must-refuse"))
+
         def dep(c):
             c.last = {"side": "deposit"}
             return m.deposit(Decimal("0.25"))
@@ -321,6 +347,10 @@ class Oracle:
         info = ctx.last
         side = info["side"]
         case = self.case(hist)
+        if side == "must-refuse" and out.ok:
+            part.violation(f"C15|{op.label.split('[')[0]}|accepted-outside-cap|limit+cap", "an order whose limit price names a level outside its own price cap was accepted", case,
+                           {"label": op.label})
+            return self.resync(ctx)
         if side == "refresh":
             md["book"] = {k: {s: [list(l) for l in v[s]] for s in v} for k, v in md["fresh"].items()}
         elif side == "deposit" and out.ok:
